@@ -1,8 +1,14 @@
-"""C20 — number parsing, alignment and byte-order helpers (spsdk/utils/misc.py)."""
+"""C20 — number parsing, alignment and byte-order helpers (spsdk/utils/misc.py, spsdk/sbfile/misc.py)."""
 from vf.api import *  # noqa
 from spsdk.exceptions import SPSDKError, SPSDKValueError
+from spsdk.utils.misc import Endianness, BinaryPattern
 
 
+concrete_ok("spsdk.utils.misc:BinaryPattern", "spsdk.utils.misc:value_to_int")
+
+# ------------------------------------------------------------------------------------------------
+# alignment
+# ------------------------------------------------------------------------------------------------
 @contract("spsdk.utils.misc:align")
 def _(number: int, alignment: int) -> int:
     raises(SPSDKError, alignment <= 0 or number < 0)
@@ -10,9 +16,127 @@ def _(number: int, alignment: int) -> int:
     ensures(result % alignment == 0, label="multiple")
     ensures(result - number < alignment, label="minimal")
     pure()
+    cover(number=5, alignment=4)
 
 
 @contract("spsdk.utils.misc:check_range")
 def _(x: int, start: int, end: int) -> bool:
-    returns(start <= x <= end)
+    returns(start <= x <= end, label="truthful")
+    pure()
+    cover(x=5, start=0, end=3)
+
+
+@contract("spsdk.utils.misc:extend_block")
+def _(data: bytes, length: int, padding: U8) -> bytes:
+    raises(SPSDKError, length < len(data))
+    ensures(len(result) == length, label="length")
+    ensures(result[: len(data)] == data, label="prefix-kept")
+    ensures(forall(len(data), length, lambda k: result[k] == padding), label="padding")
+    pure()
+    cover(data=b"ab", length=4, padding=0)
+    sample(length=Range(0, 5000))
+
+
+@contract("spsdk.utils.misc:BinaryPattern.get_block")
+def _(self: Obj(BinaryPattern, _pattern=OneOf("zeros", "ones", "inc")), size: Nat) -> bytes:
+    ensures(len(result) == size, label="length")
+    ensures(implies(self._pattern == "zeros", forall(0, size, lambda k: result[k] == 0)), label="zeros")
+    ensures(implies(self._pattern == "ones", forall(0, size, lambda k: result[k] == 0xFF)), label="ones")
+    ensures(implies(self._pattern == "inc", forall(0, size, lambda k: result[k] == k % 256)), label="inc")
+    pure()
+    sample(size=Range(0, 5000))
+
+
+@contract("spsdk.utils.misc:align_block")
+def _(data: Union[bytes, bytearray], alignment: int, padding: OneOf(None, 0, "zeros")) -> bytes:
+    # code rejects alignment < 0 itself and alignment == 0 through align(): the statement is "<= 0 is an error"
+    raises(SPSDKError, alignment <= 0)
+    ensures(len(result) >= len(data) and len(result) % alignment == 0 and len(result) - len(data) < alignment,
+            label="aligned-length")
+    ensures(result[: len(data)] == data, label="prefix-kept")
+    ensures(forall(len(data), len(result), lambda k: result[k] == 0), label="zero-padding")
+    pure()
+    sample(alignment=Range(-2, 5000))
+
+
+# ------------------------------------------------------------------------------------------------
+# range / swap helpers
+# ------------------------------------------------------------------------------------------------
+@contract("spsdk.utils.misc:swap16")
+def _(x: int) -> int:
+    raises(SPSDKError, x < 0 or x > 0xFFFF)
+    returns((x % 256) * 256 + x // 256, label="swapped")
+    pure()
+
+
+@lemma("swap16-involution")
+def _(x: U16):
+    let(y=(x % 256) * 256 + x // 256)
+    ensures((y % 256) * 256 + y // 256 == x)
+
+
+@contract("spsdk.utils.misc:swap32")
+def _(x: int) -> int:
+    raises(SPSDKError, x < 0 or x > 0xFFFFFFFF)
+    returns(byte_at(x, 0) * 0x1000000 + byte_at(x, 1) * 0x10000 + byte_at(x, 2) * 0x100 + byte_at(x, 3), label="swapped")
+    pure()
+
+
+@contract("spsdk.utils.misc:reverse_bytes_in_longs")
+def _(arr: Union[bytes, bytearray]) -> bytes:
+    raises(SPSDKError, len(arr) % 4 != 0)
+    ensures(len(result) == len(arr), label="length")
+    ensures(forall(0, len(arr), lambda i: result[i] == arr[4 * (i // 4) + 3 - i % 4]), label="permutation")
+    pure()
+
+
+@invariant("spsdk.utils.misc:reverse_bytes_in_longs", loop=0)
+def _():
+    holds(x % 4 == 0 and 0 <= x and x <= arr_len)
+    holds(len(result) == x)
+    holds(forall(0, x, lambda i: result[i] == arr[4 * (i // 4) + 3 - i % 4]))
+
+
+@contract("spsdk.utils.misc:change_endianness")
+def _(bin_data: bytes) -> bytearray:
+    raises(SPSDKError, len(bin_data) == 3 or (len(bin_data) > 3 and len(bin_data) % 4 != 0))
+    ensures(len(result) == len(bin_data), label="length")
+    ensures(implies(len(bin_data) == 2, result[0] == bin_data[1] and result[1] == bin_data[0]), label="len2")
+    ensures(implies(len(bin_data) == 1, result[0] == bin_data[0]), label="len1")
+    ensures(implies(len(bin_data) >= 4, forall(0, len(bin_data), lambda i: result[i] == bin_data[4 * (i // 4) + 3 - i % 4])),
+            label="longs")
+    pure()
+
+
+@contract("spsdk.utils.misc:swap_bytes")
+def _(data: bytes) -> bytes:
+    requires(len(data) % 2 == 0)
+    ensures(len(result) == len(data), label="length")
+    ensures(forall(0, len(data), lambda i: result[i] == data[i + 1 - 2 * (i % 2)]), label="pairs-swapped")
+    pure()
+
+
+# ------------------------------------------------------------------------------------------------
+# int <-> bytes
+# ------------------------------------------------------------------------------------------------
+@contract("spsdk.utils.misc:get_bytes_cnt_of_int")
+def _(value: int, align_to_2n: bool, byte_cnt: Optional[Nat]) -> int:
+    raises(SPSDKValueError, value < 0 or (value > 0 and byte_cnt is not None and byte_cnt != 0 and value >= pow2(8 * byte_cnt)), label="rejects")
+    ensures(result >= 1, label="positive")
+    ensures(0 <= value and value < pow2(8 * result), label="fits")
+    ensures(implies(byte_cnt is not None and byte_cnt != 0, result == byte_cnt), label="requested-width")
+    pure()
+    sample(byte_cnt=Optional[Range(0, 80)])
+
+
+@contract("spsdk.utils.misc:value_to_int")
+def _(value: Union[int, Bytes(hi=16), Bytes(hi=16, mutable=True)], default: Optional[int]) -> int:
+    ensures(implies(typed(value, int), result == value), label="int-identity")
+    ensures(implies(not typed(value, int), result == int.from_bytes(value, "big")), label="bytes-big-endian")
+    pure()
+
+
+@contract("spsdk.utils.misc:value_to_bool")
+def _(value: Union[bool, int, None]) -> bool:
+    returns(value is not None and value != 0)
     pure()
